@@ -420,6 +420,183 @@ pub fn gen_div_partner(rng: &mut Rng, lay: Lay, a: u128) -> u128 {
     }
 }
 
+/// dividend `a` with `(a << f) / b ~ T` for the raw target quotient T = (-1)^tn * (tm_hi * 2^128 + tm): a = trunc(T*b / 2^f) + d
+fn solve_dividend(lay: Lay, b: u128, tn: bool, tm_hi: u128, tm: u128, d: i64) -> Option<u128> {
+    let m = lay.mask();
+    let (bn, bm) = sign_mag(lay, b);
+    if bm == 0 || (!lay.signed && tn) {
+        return None;
+    }
+    let (p_hi, p_lo) = mul_128(tm, bm);
+    // + tm_hi * bm * 2^128 (tm_hi is 0 or 1)
+    let (p_hi, c) = p_hi.overflowing_add(if tm_hi != 0 { bm } else { 0 });
+    if c {
+        return None;
+    }
+    let am = if lay.f == 0 {
+        if p_hi != 0 {
+            return None;
+        }
+        p_lo
+    } else if lay.f < 128 {
+        if (p_hi >> lay.f) != 0 {
+            return None;
+        }
+        (p_hi << (128 - lay.f)) | (p_lo >> lay.f)
+    } else {
+        p_hi
+    };
+    let am = if d < 0 { am.checked_sub((-d) as u128)? } else { am.checked_add(d as u128)? };
+    if am > m {
+        return None;
+    }
+    let an = tn != bn;
+    if !lay.signed && an && am != 0 {
+        return None;
+    }
+    let a = from_sign_mag(lay, an, am);
+    // the pattern must mean the intended value (a magnitude of 2^(n-1) is only MIN when negative)
+    if lay.signed && (sign_mag(lay, a) != (an && am != 0, am)) {
+        return None;
+    }
+    Some(a)
+}
+
+/// raw target quotients at and next to the range bounds: MAX, MAX+1 (the first quotient that does not fit), MIN, MIN-1, +-2^n
+fn div_targets(lay: Lay) -> Vec<(bool, u128, u128)> {
+    let n = lay.n;
+    let mut t = vec![(false, 0u128, lay.max_bits())];
+    match lay.max_bits().checked_add(1) {
+        Some(v) => t.push((false, 0, v)),
+        None => t.push((false, 1, 0)),
+    }
+    if lay.signed {
+        t.push((true, 0, 1u128 << (n - 1)));
+        t.push((true, 0, (1u128 << (n - 1)) + 1));
+    }
+    if n < 128 {
+        t.push((false, 0, 1u128 << n));
+        if lay.signed {
+            t.push((true, 0, 1u128 << n));
+        }
+    } else if lay.signed {
+        t.push((false, 1, 0));
+        t.push((true, 1, 0));
+    }
+    t
+}
+
+/// SYSTEMATIC block (class 3, solved from the DIVISOR side): for every hostile divisor b in {+-1 ulp, +-2, +-3, +-2^(f-1), +-2^f (= +-1.0),
+/// +-2^(n-2), MIN, MAX} and every bound target T, the dividends a = trunc(T*b/2^f) + {-1, 0, 1}: the exact quotient (a << f) / b
+/// lands on / one step beside MAX, MAX+1, MIN, MIN-1, +-2^n.  `gen_div_partner` solves b from a RANDOM a; with the divisor fixed the
+/// dividend that puts the quotient exactly on a bound is a single value (e.g. -2^(n-1-f) for b = -1 ulp) that random operands never take.
+pub fn div_bound_block(lay: Lay) -> Vec<(u128, u128)> {
+    let n = lay.n;
+    let m = lay.mask();
+    let mut bs: Vec<u128> = vec![1, 2, 3, 1u128 << (n - 2), lay.max_bits()];
+    if lay.f >= 1 {
+        bs.push(1u128 << (lay.f - 1));
+    }
+    if lay.f < n - (lay.signed as u32) {
+        bs.push(1u128 << lay.f);
+    }
+    if lay.signed {
+        let neg: Vec<u128> = bs.iter().map(|v| v.wrapping_neg() & m).collect();
+        bs.extend(neg);
+        bs.push(lay.min_bits());
+    }
+    let mut out = Vec::new();
+    for &b in bs.iter() {
+        for &(tn, th, tm) in div_targets(lay).iter() {
+            for d in -1..=1i64 {
+                if let Some(a) = solve_dividend(lay, b, tn, th, tm, d) {
+                    out.push((a, b));
+                }
+            }
+        }
+    }
+    out
+}
+
+/// random member of the same class: hostile or structured divisor, bound target, dividend solved (falls back to a random dividend)
+pub fn gen_div_pair(rng: &mut Rng, lay: Lay) -> (u128, u128) {
+    let n = lay.n;
+    let m = lay.mask();
+    let b = match rng.below(8) {
+        0 => 1,
+        1 => m, // -1 ulp (signed) / MAX (unsigned)
+        2 | 3 => {
+            let k = rng.below(n as u64) as u32;
+            let v = 1u128 << k;
+            (if lay.signed && rng.chance(1, 2) { v.wrapping_neg() } else { v }) & m
+        }
+        4 => {
+            let v = 1 + rng.below(9) as u128;
+            (if lay.signed && rng.chance(1, 2) { v.wrapping_neg() } else { v }) & m
+        }
+        5 => gen_limb_structured(rng, lay),
+        _ => gen_bits(rng, lay),
+    };
+    let ts = div_targets(lay);
+    let (tn, th, tm) = ts[rng.below(ts.len() as u64) as usize];
+    let d = rng.range(-2, 2);
+    match solve_dividend(lay, b, tn, th, tm, d) {
+        Some(a) => (a, if b == 0 { 1 } else { b }),
+        None => (gen_bits(rng, lay), if b == 0 { 1 } else { b }),
+    }
+}
+
+/// SYSTEMATIC block for products: for every hostile multiplicand a in {+-1 ulp, +-2, +-3, +-2^(f-1), +-1.0, +-2^(n-2), MIN, MAX} and every
+/// bound target T, the multipliers b = trunc((T << f) / a) + {-1, 0, 1}: the exact product (a*b) >> f lands on / beside MAX, MAX+1, MIN, MIN-1, +-2^n.
+pub fn mul_bound_block(lay: Lay) -> Vec<(u128, u128)> {
+    let n = lay.n;
+    let m = lay.mask();
+    let mut as_: Vec<u128> = vec![1, 2, 3, 1u128 << (n - 2), lay.max_bits()];
+    if lay.f >= 1 {
+        as_.push(1u128 << (lay.f - 1));
+    }
+    if lay.f < n - (lay.signed as u32) {
+        as_.push(1u128 << lay.f);
+    }
+    if lay.signed {
+        let neg: Vec<u128> = as_.iter().map(|v| v.wrapping_neg() & m).collect();
+        as_.extend(neg);
+        as_.push(lay.min_bits());
+    }
+    let mut out = Vec::new();
+    for &a in as_.iter() {
+        let (an, am) = sign_mag(lay, a);
+        if am == 0 {
+            continue;
+        }
+        for &(tn, th, tm) in div_targets(lay).iter() {
+            if th != 0 || (!lay.signed && tn) {
+                continue;
+            }
+            let (hi, lo) = shl_256(tm, lay.f);
+            if let Some((q, _)) = divrem_256_128(hi, lo, am) {
+                for d in -1..=1i64 {
+                    let q = if d < 0 { q.checked_sub((-d) as u128) } else { q.checked_add(d as u128) };
+                    let q = match q {
+                        Some(q) if q <= m => q,
+                        _ => continue,
+                    };
+                    let bn = tn != an;
+                    if !lay.signed && bn && q != 0 {
+                        continue;
+                    }
+                    let b = from_sign_mag(lay, bn, q);
+                    if lay.signed && sign_mag(lay, b) != (bn && q != 0, q) {
+                        continue;
+                    }
+                    out.push((a, b));
+                }
+            }
+        }
+    }
+    out
+}
+
 /// add/sub partner: lands the exact sum/difference next to a boundary
 pub fn gen_add_partner(rng: &mut Rng, lay: Lay, a: u128, sub: bool) -> u128 {
     let m = lay.mask();
